@@ -8,8 +8,11 @@ CONSTANTS
   ConsSet <- FreeOnly
   MaxSteps = 1
   Emit = TRUE
+  Refusals <- NoRefusals
   MatChange = FALSE
   Mutant = "none"
+INVARIANT LatticeAdmissible
+INVARIANT RefusedKeeps
 INVARIANT Motion
 INVARIANT UpdateRel
 INVARIANT Affine
